@@ -164,7 +164,11 @@ func init() {
 			rand.Seed(5)
 			var out []byte
 			d := &recDst{failAt: -1}
-			switch a[1] {
+			if strings.HasSuffix(a[1], "f0") || strings.HasSuffix(a[1], "f1") {
+				// the destination fails at its first / second write: the caller's bytes stay intact all the same
+				d.failAt = int(a[1][len(a[1])-1] - '0')
+			}
+			switch strings.TrimRight(a[1], "f01") {
 			case "wm":
 				wsutil.WriteMessage(d, st, ws.OpBinary, p)
 			case "wt":
@@ -206,7 +210,9 @@ func init() {
 			}
 			// what reached the destination carries the ORIGINAL bytes (possibly masked)
 			carried := "-"
-			if a[1] == "buffered" || a[1] == "wm" || a[1] == "wt" || a[1] == "big" {
+			if d.failAt >= 0 {
+				carried = "-"
+			} else if a[1] == "buffered" || a[1] == "wm" || a[1] == "wt" || a[1] == "big" {
 				carried = hx(payloadsOf(out, st))
 			}
 			return fmt.Sprintf("intact=%d carried=%s", b2i(bytes.Equal(orig, p)), carried)
@@ -299,6 +305,15 @@ func genC17(tier string, r *rng) {
 		}
 		for _, kind := range []string{"wm", "wt", "big", "buffered", "cwr", "mf", "mfw", "umf"} {
 			for _, n := range []int{0, 1, 7, 8, 9, 31, 100, 127, 128, 1000, 5000} {
+				run(fmt.Sprintf("ali wr %s %s %s", kind, sd, hx(r.bytes(n))))
+			}
+		}
+		// across and beyond the byte pool's largest size class (65536), and with a failing destination
+		for _, kind := range []string{"wm", "wt", "big", "wmf0", "wtf0", "bigf0", "bigf1", "mf", "cwr"} {
+			for _, n := range []int{100, 4096, 65535, 65536, 65537, 70000, 140000} {
+				if tier == "quick" && n > 70000 {
+					continue
+				}
 				run(fmt.Sprintf("ali wr %s %s %s", kind, sd, hx(r.bytes(n))))
 			}
 		}
